@@ -1,6 +1,7 @@
 package harness
 
 import (
+	"sort"
 	"encoding/hex"
 	"fmt"
 	"math/big"
@@ -123,12 +124,27 @@ func runClaim(t *testing.T, in []string) string {
 	if in[1] == "1" {
 		_ = k.DepositIdClaimedMap.Set(ctx, id, bridgetypes.DepositClaimed{Claimed: true})
 	}
+	cpTs := map[uint64]bool{}
 	if in[3] != "" {
 		for _, cp := range strings.Split(in[3], ",") {
 			p := strings.Split(cp, ":")
 			ts, _ := strconv.ParseUint(p[0], 10, 64)
 			thr, _ := strconv.ParseUint(p[1], 10, 64)
 			_ = k.ValidatorCheckpointParamsMap.Set(ctx, ts, bridgetypes.ValidatorCheckpointParams{Timestamp: ts, PowerThreshold: thr})
+			cpTs[ts] = true
+		}
+		// the index collections of the checkpoint chain, consistent with the parameters above (chronological indexes)
+		var tss []uint64
+		for ts := range cpTs {
+			tss = append(tss, ts)
+		}
+		sort.Slice(tss, func(i, j int) bool { return tss[i] < tss[j] })
+		for i, ts := range tss {
+			_ = k.ValidatorCheckpointIdxMap.Set(ctx, uint64(i), bridgetypes.CheckpointTimestamp{Timestamp: ts})
+			_ = k.ValsetTimestampToIdxMap.Set(ctx, ts, bridgetypes.CheckpointIdx{Index: uint64(i)})
+		}
+		if len(tss) > 0 {
+			_ = k.LatestCheckpointIdx.Set(ctx, bridgetypes.CheckpointIdx{Index: uint64(len(tss) - 1)})
 		}
 	}
 	now, _ := strconv.ParseInt(in[4], 10, 64)
